@@ -28,6 +28,7 @@ def run(ck):
     c08.rule_I(ck, lib, sk, "C12-M")
     rule_D(ck, lib, sk)
     rule_G(ck, lib, sk, "C12-G")
+    rule_T(ck, lib, sk)
 
 
 def eoi_fact(x, inp_terms=None):
@@ -145,3 +146,32 @@ def rule_G(ck, lib, sk, rid):
                      "an accepted unit does not pass a strict consumer on the way to its remainder (chain %s): zero bytes may be consumed" % (ch,),
                      data=pathsum.show_exit(x)[:1200])
     ck.floor(rid, "Ok exits of parse", n, 10)
+
+
+def rule_T(ck, lib, sk):
+    """Nothing is examined behind the terminator: on every accepting path of parse the application that consumes the
+    unit's terminator is the last parser application, and the returned remainder is its remainder."""
+    f = sk.fns.get(P + "parse")
+    if not ck.anchor("C12-T", P + "parse", f):
+        return
+    n = 0
+    for i, x in enumerate(f["exits"]):
+        r = sk.exit_result(x)
+        if not (r and r[0][0] == "ok"):
+            continue
+        n += 1
+        rem = sk.rem_of(r[0][1])
+        apps = sk.apps_on_path(x, f["ps"])
+        last = apps[-1] if apps else None
+        ok = False
+        why = "no parser application"
+        if last is not None:
+            pid, inp, t, oc = last
+            want = ("tproj", ("payload", t, OK, 0), 0)
+            term = pid in (("tag", 10), ("tag", 59), ("optional", ("tag", 10)))
+            ok = oc is True and rem == want and term
+            why = "last application on the path is %s (%s), returned remainder %s" % (pid_name(pid), "ok" if oc else "failed" if oc is False else "?", "is its remainder" if rem == want else "is NOT its remainder")
+        ck.judge(ok, "C12-T", "parse:terminator-last#%d" % n, "the terminator is consumed last and its remainder is returned",
+                 "an accepting path of parse examines input behind the unit's terminator or does not return the terminator's remainder: %s" % why,
+                 data=pathsum.show_exit(x)[:1500])
+    ck.floor("C12-T", "Ok exits of parse", n, 10)
